@@ -6,6 +6,18 @@ pub const CANARY: u8 = 0xEE;
 pub const PRE: usize = 128;
 pub const ALIGN_BASE: usize = 64;
 
+thread_local! {
+    static DROPS: std::cell::RefCell<Vec<usize>> = std::cell::RefCell::new(Vec::new());
+}
+/// Called by the destructor of catalog types that have one: records the address of the dropped value.
+pub fn note_drop(addr: usize) {
+    let _ = DROPS.try_with(|d| d.borrow_mut().push(addr));
+}
+/// Addresses of the values whose destructor ran on this thread since the last call.
+pub fn take_drops() -> Vec<usize> {
+    DROPS.try_with(|d| std::mem::take(&mut *d.borrow_mut())).unwrap_or_default()
+}
+
 pub struct Arena {
     base: *mut u8,
     usable: usize,
